@@ -219,6 +219,44 @@ theorem insertPhis_vars (df : Nat → List Nat) (written : Nat → List Var) (Q 
         · exact hQ cur v h3
         · exact hP cur v h3
 
+/-- **the placement is the least closed one**: every phi statement the work list inserts is in every placement that is
+    closed under the dominance frontier — so the set of phi statements does not depend on the order in which blocks and
+    variables are taken (work-list order, hash order of `variables_written`) -/
+theorem insertPhis_least (n : Nat) (df : Nat → List Nat) (written : Nat → List Var) (hdf : ∀ x j, j ∈ df x → j < n)
+    (Q : Phis) (hQ : Closed n df written Q) :
+    ∀ (fuel : Nat) (wl : List Nat) (P Pf : Phis), (∀ y, y ∈ wl → y < n) → (∀ j v, v ∈ P j → v ∈ Q j) →
+      insertPhis df written fuel wl P = some Pf → ∀ j v, v ∈ Pf j → v ∈ Q j := by
+  intro fuel
+  induction fuel with
+  | zero =>
+    intro wl P Pf _ hP h
+    simp only [insertPhis] at h
+    split at h
+    · cases h; exact hP
+    · cases h
+  | succ f ih =>
+    intro wl P Pf hwl hP h
+    simp only [insertPhis] at h
+    cases hl : wl.getLast? with
+    | none => rw [hl] at h; cases h; exact hP
+    | some cur =>
+      rw [hl] at h
+      have hsplit := getLast_split wl cur hl
+      have hcur : cur < n := hwl cur (by rw [hsplit]; simp)
+      obtain ⟨_, _, g3, _, g5, _⟩ := frontierFold_spec (written cur ++ P cur) (df cur) P wl.dropLast
+      apply ih _ _ Pf ?_ ?_ h
+      · intro y hy
+        rcases g5 y hy with h1 | h1
+        · exact hwl y (by rw [hsplit]; exact List.mem_append_left _ h1)
+        · exact hdf cur y h1
+      · intro j v hv
+        rcases g3 j v hv with h1 | ⟨h1, h2⟩
+        · exact hP j v h1
+        · apply hQ cur hcur v ?_ j h1
+          rcases List.mem_append.mp h2 with h3 | h3
+          · exact List.mem_append_left _ h3
+          · exact List.mem_append_right _ (hP cur v h3)
+
 -- ---------------------------------------------------------------------------- termination of the work list
 
 /-- the rows of a placement: nothing outside the graph, no variable twice, only variables that are written -/
